@@ -420,14 +420,27 @@ def run_shard(spec, ctx):
                         c['max_items'], c['max_item_size'], c['limit']]})
                     break
         done += m
-    # deprecated single-script entry point
+    # deprecated single-script entry point, under every kind of limit, with
+    # positional and keyword arguments
     functions = env.mods()[0]
-    for j in range(60):
-        s = auth.lock(ctx.rng(('single', j)))[0]
+    for j in range(400 if ctx.tier == 'quick' else 6000):
+        rng = ctx.rng(('single', j))
+        s = auth.lock(rng)[0] if j % 2 else \
+            auth.witness(rng, {'handles': [0]}) + auth.lock(rng)[0]
         case = {'scripts': [s], 'cache': {}, 'tag': 'single',
-                'max_items': 1024, 'max_item_size': 1024, 'limit': 128}
+                'max_items': rng.choice(LIMITS['max_items']),
+                'max_item_size': rng.choice(LIMITS['max_item_size']),
+                'limit': rng.choice(LIMITS['limit'])}
         try:
-            a = functions.run_auth_script(s)
+            if j % 3 == 0:
+                a = functions.run_auth_script(
+                    s, {}, {}, {}, case['max_items'], case['max_item_size'],
+                    case['limit'])
+            else:
+                a = functions.run_auth_script(
+                    s, stack_max_items=case['max_items'],
+                    stack_max_item_size=case['max_item_size'],
+                    callstack_limit=case['limit'])
         except BaseException as e:
             a = repr(e)
         b = oracle(case)
@@ -448,6 +461,20 @@ def finalize(agg, tier):
 
 
 def replay(case, ctx):
+    if case.get('tag') == 'single':
+        functions = env.mods()[0]
+        try:
+            a = functions.run_auth_script(
+                case['scripts'][0], {}, {}, {}, case['max_items'],
+                case['max_item_size'], case['limit'])
+        except BaseException as e:
+            a = repr(e)
+        b = oracle(case)
+        ctx.evaluated()
+        if a != b:
+            ctx.violation('auth-single-differs', 'run_auth_script verdict '
+                          'differs from the contract', case, b, a)
+        return
     v, e = real(case)
     saved = install_tracer()
     try:
